@@ -340,8 +340,14 @@ func genLeaf(rng *rand.Rand, m *metaModel, absentField bool) modelFilter {
 			}
 		case 8:
 			f = comet.Exists(name)
+			if rng.IntN(3) == 0 {
+				f = comet.IsNotNull(name) // documented alias
+			}
 		default:
 			f = comet.NotExists(name)
+			if rng.IntN(3) == 0 {
+				f = comet.IsNull(name) // documented alias
+			}
 		}
 	} else {
 		list := func() []any {
@@ -359,12 +365,24 @@ func genLeaf(rng *rand.Rand, m *metaModel, absentField bool) modelFilter {
 			f = comet.Ne(name, op())
 		case 3:
 			f = comet.In(name, list()...)
+			if rng.IntN(3) == 0 {
+				f = comet.AnyOf(name, list()...) // documented alias
+			}
 		case 4:
 			f = comet.NotIn(name, list()...)
+			if rng.IntN(3) == 0 {
+				f = comet.NoneOf(name, list()...) // documented alias
+			}
 		case 5:
 			f = comet.Exists(name)
+			if rng.IntN(3) == 0 {
+				f = comet.IsNotNull(name) // documented alias
+			}
 		case 6:
 			f = comet.NotExists(name)
+			if rng.IntN(3) == 0 {
+				f = comet.IsNull(name) // documented alias
+			}
 		default:
 			if t == ftString {
 				var l []string
